@@ -266,7 +266,7 @@ func (r *Run) makeNativeFunc(fn value, rt reflect.Type) reflect.Value {
 	})
 }
 
-func (r *Run) nativeFieldAddr(fr *frame, instr poser, p nativeV, field int) value {
+func (r *Run) nativeFieldAddr(fr *frame, instr poser, p nativeV, field string) value {
 	if nativeIsNil(p) {
 		fr.panicAt(instr, "nil-deref", "field access through nil pointer (native)")
 	}
@@ -274,7 +274,10 @@ func (r *Run) nativeFieldAddr(fr *frame, instr poser, p nativeV, field int) valu
 	if rv.Kind() == reflect.Ptr {
 		rv = rv.Elem()
 	}
-	f := rv.Field(field)
+	f := rv.FieldByName(field)
+	if !f.IsValid() {
+		panic(unsupported("native struct " + rv.Type().String() + " has no field " + field))
+	}
 	if !f.CanAddr() {
 		panic(unsupported("native field not addressable"))
 	}
